@@ -25,6 +25,9 @@ ASSUMPTIONS = [
 METHODS = ("jacobi", "sor", "ssor")
 OMEGAS = [Fraction(1, 2), Fraction(3, 4), Fraction(1), Fraction(5, 4), Fraction(3, 2)]
 U = Fraction(1, 2 ** 52)
+# process layouts for the node-aware (tap) runs: PPN divides the process count or is at least as large (one node).
+# (TAPComm hangs when the last node is only partly filled, e.g. 3 processes with PPN=2 -- that is C04's business.)
+PPN_FOR = {1: [1, 4], 2: [1, 2, 4], 3: [1, 3, 4], 4: [1, 2, 2, 4, 16], 5: [1, 5, 16], 6: [1, 2, 3, 6, 16], 7: [1, 7, 16], 8: [1, 2, 4, 8, 16]}
 
 
 # ----------------------------------------------------------------- textbook oracle (independent of the model)
@@ -140,7 +143,7 @@ def make_line(c):
     vec = [nums.tok_num(v) for v in c["x"]] + [nums.tok_num(v) for v in c["b"]]
     if c["kind"] == "seq":
         return " ".join(head + csr_tokens(c["n"], c["rows"]) + vec)
-    return " ".join(head + [str(c["tap"]), str(c["ppn"]), str(c["scr"]), str(c["np"])] + c["lit"] + vec +
+    return " ".join(head + [str(c["tap"]), str(c["ppn"]), str(c["scr"]), str(c["np"]), str(c.get("tinyrow", -1))] + c["lit"] + vec +
                     ["parts", str(len(c["parts"]))] + [str(s) for s in c["parts"]])
 
 
@@ -183,7 +186,7 @@ def gen_par(rng, cid, np_):
     parts = rand_parts(rng, n, np_) if explicit else default_parts(n, np_)
     lit, _ = parlit_tokens(rng, n, rows, parts, explicit)
     c = dict(cid=cid, kind="par", method=method, sweeps=rng.randint(1, 3), omega=rng.choice(OMEGAS), n=n, rows=rows,
-             parts=parts, explicit=explicit, np=np_, tap=rng.choice([0, 1]), ppn=rng.choice([2, 4, 4, 16]),
+             parts=parts, explicit=explicit, np=np_, tap=rng.choice([0, 1]), ppn=rng.choice(PPN_FOR[np_]),
              scr=rng.choice([0, 0, 1, 2]), lit=lit, dom=True)
     gen_vectors(rng, c, rng.random() < 0.25)
     return c
@@ -227,9 +230,10 @@ def gen_off(rng, cid, np_):
         own = owners(n, parts)
         if flavour == "no_diag": rows[i] = rows[i][1:]
         elif flavour == "no_on_entries": rows[i] = [e for e in rows[i] if own[e[0]] != own[i]]
-        else: rows[i][0] = (i, Fraction(1, 2 ** 60))
         lit, _ = parlit_tokens(rng, n, rows, parts, explicit)
-        c.update(kind="par", rows=rows, parts=parts, explicit=True, np=np_, tap=rng.choice([0, 1]), ppn=rng.choice([2, 4]),
+        if flavour == "tiny_diag":             # the literal carries the placeholder; both drivers patch row i afterwards
+            rows[i][0] = (i, Fraction(1, 2 ** 60)); c["tinyrow"] = i
+        c.update(kind="par", rows=rows, parts=parts, explicit=True, np=np_, tap=rng.choice([0, 1]), ppn=rng.choice(PPN_FOR[np_]),
                  scr=rng.choice([0, 1, 2]), lit=lit, flavour=flavour)
     c["x"] = [Fraction(rng.randint(-4, 4)) for _ in range(n)]
     c["b"] = [Fraction(rng.randint(-4, 4)) for _ in range(n)]
@@ -267,11 +271,11 @@ def gen_cases(ctx):
         if c["kind"] == "par":
             c["lit"], _ = parlit_tokens(rng, c["n"], c["rows"], c["parts"], c["explicit"])
         cases.append(c)
-    nseq = ctx.scale(1200, 14000)
+    nseq = ctx.scale(2500, 30000)
     for _ in range(nseq):
         c = gen_off(rng, "s%d" % k, 0) if rng.random() < 0.08 else gen_seq(rng, "s%d" % k)
         k += 1; cases.append(c)
-    per_np = ctx.scale({1: 250, 2: 450, 3: 450, 4: 450, 5: 250, 7: 200}, {1: 3000, 2: 5000, 3: 5000, 4: 5000, 5: 3000, 7: 2500})
+    per_np = ctx.scale({1: 500, 2: 1000, 3: 1000, 4: 1000, 5: 500, 7: 400}, {1: 6000, 2: 12000, 3: 12000, 4: 12000, 5: 6000, 7: 5000})
     for np_, cnt in per_np.items():
         for _ in range(cnt):
             c = gen_off(rng, "p%d" % k, np_) if rng.random() < 0.08 else gen_par(rng, "p%d" % k, np_)
@@ -373,13 +377,15 @@ def case_from_line(line):
         vals = [P(v) for v in t[p:p + nnz]]; p += nnz
         c.update(n=n, rows=[[(cols[k], vals[k]) for k in range(ptr[i], ptr[i + 1])] for i in range(n)], parts=[n])
     else:
-        c.update(tap=int(t[5]), ppn=int(t[6]), scr=int(t[7]), np=int(t[8]))
-        n, Pn = int(t[9]), int(t[11]); p = 12
+        c.update(tap=int(t[5]), ppn=int(t[6]), scr=int(t[7]), np=int(t[8]), tinyrow=int(t[9]))
+        n, Pn = int(t[10]), int(t[12]); p = 13
         if Pn > 0: p += 2 * (Pn + 1)
         nnz = int(t[p]); p += 1
         rows = [[] for _ in range(n)]
         for _ in range(nnz):
             rows[int(t[p])].append((int(t[p + 1]), P(t[p + 2]))); p += 3
+        if c["tinyrow"] >= 0:
+            rows[c["tinyrow"]] = [(j, Fraction(1, 2 ** 60) if j == c["tinyrow"] else v) for (j, v) in rows[c["tinyrow"]]]
         c.update(n=n, rows=rows, explicit=Pn > 0)
     n = c["n"]
     c["x"] = [P(v) for v in t[p:p + n]]; p += n
@@ -400,7 +406,7 @@ def run(ctx):
     ctx.rule = ("random square matrices n=1..8 with one stored power-of-two diagonal per row (any sign, non-symmetric, "
                 "diagonal-only rows, explicit zeros), dyadic x/b, omega in {1/2,3/4,1,5/4,3/2}, 1..3 sweeps, x 3 methods; "
                 "sequential: canonical and tail-unsorted layouts, off-diagonal duplicates; distributed: P in {1,2,3,4,5,7}, "
-                "default and explicit unbalanced/empty-rank partitions, tap on/off (PPN 2/4/16), stored rows scrambled so the "
+                "default and explicit unbalanced/empty-rank partitions, tap on/off (PPN dividing P, or one node), stored rows scrambled so the "
                 "preamble sorts; 25% fixed-point cases (b = A x); 8% off-domain cases (model-vs-library only); "
                 "non-trivial = n>1 and some off-diagonal entry; distinct = distinct case text")
     cases = [case_from_line(l) for l in ctx.replay] if ctx.replay else gen_cases(ctx)
@@ -409,10 +415,11 @@ def run(ctx):
     impl = {}
     seq_lines = [c["line"] for c in cases if c["kind"] == "seq"]
     if seq_lines:
-        r, _ = fw.run_impl_lines(ctx, "drv_relax", seq_lines, nprocs=0, name="c11seq"); impl.update(r)
+        r, _ = fw.run_impl_lines(ctx, "drv_relax", seq_lines, nprocs=0, name="c11seq", timeout=300); impl.update(r)
     for np_ in sorted(set(c["np"] for c in cases if c["kind"] == "par")):
         pl = [c["line"] for c in cases if c["kind"] == "par" and c["np"] == np_]
-        r, _ = fw.run_impl_lines(ctx, "drv_relax", pl, nprocs=np_, name="c11p%d" % np_); impl.update(r)
+        r, _ = fw.run_impl_lines(ctx, "drv_relax", pl, nprocs=np_, name="c11p%d" % np_, timeout=ctx.scale(120, 600), max_restarts=3)
+        impl.update(r)
     rcm, model, _, errm = fw.run_model(ctx, cf)
     if rcm != 0: ctx.signal("K", "modeldriver", "model driver exited with %s: %s" % (rcm, errm[-400:]))
     for c in cases: judge(ctx, c, impl, model)
